@@ -147,7 +147,8 @@ def _install():
                     mon.count("row:side-undecided")
                     continue
                 mon.count("row:side")
-                plus = [k for k, v in nz.items() if v * np.sign(rhs[i]) > 0][0]
+                # for a NEGATIVE tension the pressure is lower on the centre-of-curvature side
+                plus = [k for k, v in nz.items() if v * np.sign(rhs[i]) * (np.sign(b.tension) or 1.0) > 0][0]
                 if plus != sides[0]:
                     mon.fail("row-side", "(pressure of the cell on the centre-of-curvature side) - (other) = tension x "
                              "turning", plus_cell=plus, centre_side=sides[0], rhs=float(rhs[i]), phi=phi,
@@ -387,6 +388,8 @@ def _tissue_case(case, mon, sigs, hist, metrics):
             # linearity: scale and add
             T2 = rng.uniform(0.2, 2.0, len(T))
             T2[rng.random(len(T)) < 0.25] = 0.0        # slack interfaces: exactly zero is a legitimate tension
+            neg_ = rng.random(len(T)) < 0.15
+            T2[neg_] = -T2[neg_]                         # arbitrary tension vectors: linearity does not stop at zero
             alpha = float(rng.uniform(0.3, 3.0))
             cur2 = run(T2)
             cur3 = run(alpha * T / T.mean() + T2)
